@@ -16,8 +16,8 @@ RULE = ("the full table clean_up in {None, True, False} x allow_incomplete x wai
 EXHAUSTIVE = {'quick': True, 'thorough': True}
 TRUSTED = ["failures are injected from outside (corrupting a file, a Runner with one var_name too many, a conflicting data file, a data path in a missing directory)"]
 
-STAGES = {'raw': ['none', 'incomplete', 'unreadable'],
-          'runner': ['none', 'incomplete', 'unreadable', 'label'],
+STAGES = {'raw': ['none', 'incomplete', 'unreadable', 'surplus'],
+          'runner': ['none', 'incomplete', 'unreadable', 'label', 'surplus'],
           'harvester': ['none', 'incomplete', 'unreadable', 'label', 'conflict', 'saveerr'],
           'sampler': ['none', 'incomplete', 'unreadable', 'label', 'saveerr']}
 
@@ -48,17 +48,28 @@ def cases(ctx):
 search_cases = cases
 
 
-def _sweep(n):
-    vals = list(range(10, 10 + n))
+def _sweep(n, n_values=None):
+    vals = list(range(10, 10 + (n_values or n)))
     return {'case_args': [], 'combo_args': ['a'], 'values': {'a': vals}, 'combo_order': {'a': list(range(n))}, 'rows': None, 'consts': {}}
+
+
+def _surplus(c):
+    """'surplus' stage: the crop was first sown and grown with one more setting in the same number of batches, then
+    re-sown smaller: the last result file is one entry too long, so the reap finds results left over"""
+    return c['stage'] == 'surplus'
 
 
 def _ops(c):
     nb = -(-c['n'] // c['bs'])
     ids = list(range(1, nb + 1))
     if c['stage'] == 'incomplete': ids = ids[:-1] or []
-    ops = [{'op': 'new', 'bs': c['bs']}, {'op': 'sow', 'shuffle': c['shuffle'], 'cases': c['kind'] == 'sampler'},
-           {'op': 'grow', 'ids': ids, 'via': 'crop'}]
+    if _surplus(c):
+        nb = 3
+        ops = [{'op': 'new', 'nb': nb}, {'op': 'sow', 'shuffle': 0, 'cases': False, 'sw': _sweep(6, 6)},
+               {'op': 'grow', 'ids': [1, 2, 3], 'via': 'crop'}, {'op': 'sow', 'shuffle': 0, 'cases': False, 'sw': _sweep(5, 6)}]
+    else:
+        ops = [{'op': 'new', 'bs': c['bs']}, {'op': 'sow', 'shuffle': c['shuffle'], 'cases': c['kind'] == 'sampler'},
+               {'op': 'grow', 'ids': ids, 'via': 'crop'}]
     if c['stage'] == 'unreadable': ops.append({'op': 'corrupt', 'id': 1})
     r = {'op': 'reapf', 'kind': c['kind'], 'allow_incomplete': c['allow_incomplete'], 'wait': c['wait'],
          'label_fails': c['stage'] == 'label', 'deliver_fails': c['stage'] in ('conflict', 'saveerr')}
@@ -67,6 +78,7 @@ def _ops(c):
     if not _expect_fail(c): return ops
     if c['stage'] in ('incomplete',): ops.append({'op': 'growmissing'})
     if c['stage'] == 'unreadable': ops += [{'op': 'delres', 'id': 1}, {'op': 'growmissing'}]
+    if _surplus(c): ops += [{'op': 'checkbad'}, {'op': 'growmissing'}]
     r2 = dict(r); r2['label_fails'] = False; r2['deliver_fails'] = False
     ops.append(r2)
     return ops
@@ -79,7 +91,7 @@ def _expect_fail(c):
 def run_real(c, ctx):
     import numpy as np, pandas as pd, xarray as xr
     import xyzpy as xyz
-    sw = _sweep(c['n'])
+    sw = _sweep(5, 6) if _surplus(c) else _sweep(c['n'])
     kind = {'scalar': 'num'}
     f = sweeps.make_rec(sw, kind)
     d = common.fresh_dir('c12')
@@ -96,20 +108,29 @@ def run_real(c, ctx):
         elif c['kind'] == 'sampler':
             data = os.path.join(sub, 's.pkl')
             farmer = xyz.Sampler(runner, data_name=data, default_combos={'a': sw['values']['a']})
-        if farmer is None: crop = xyz.Crop(fn=f, name='t', parent_dir=d, batchsize=c['bs'])
-        else: crop = farmer.Crop(name='t', parent_dir=d, batchsize=c['bs'])
+        bkw = {'num_batches': 3} if _surplus(c) else {'batchsize': c['bs']}
+        if farmer is None: crop = xyz.Crop(fn=f, name='t', parent_dir=d, **bkw)
+        else: crop = farmer.Crop(name='t', parent_dir=d, **bkw)
         with quiet():
-            if c['kind'] == 'sampler':
+            if _surplus(c):
+                crop.sow_combos({'a': sw['values']['a']}, verbosity=0)          # 6 settings in 3 batches
+                ls_sown = crops.ls(loc)
+                crop.grow([1, 2, 3], verbosity=0)
+                ls_grown = crops.ls(loc)
+                crop.sow_combos({'a': sw['values']['a'][:5]}, verbosity=0)      # re-sown smaller, same number of batches
+            elif c['kind'] == 'sampler':
                 crop.shuffle = c['shuffle'] or False
                 crop.sow_cases(['a'], [(v,) for v in sw['values']['a']], verbosity=0)
             else:
                 crop.sow_combos({'a': sw['values']['a']}, shuffle=c['shuffle'] or False, verbosity=0)
-            ls_sown = crops.ls(loc)
-            nb = -(-c['n'] // c['bs'])
-            ids = list(range(1, nb + 1))
-            if c['stage'] == 'incomplete': ids = ids[:-1]
-            if ids: crop.grow(ids, verbosity=0)
+            if not _surplus(c):
+                ls_sown = crops.ls(loc)
+                nb = -(-c['n'] // c['bs'])
+                ids = list(range(1, nb + 1))
+                if c['stage'] == 'incomplete': ids = ids[:-1]
+                if ids: crop.grow(ids, verbosity=0)
         obs = [{'o': None, 'ls': None}, {'o': None, 'ls': ls_sown}, {'o': None, 'ls': crops.ls(loc)}]
+        if _surplus(c): obs = [{'o': None, 'ls': None}, {'o': None, 'ls': ls_sown}, {'o': None, 'ls': ls_grown}, {'o': None, 'ls': crops.ls(loc)}]
         # inject
         if c['stage'] == 'unreadable':
             with open(os.path.join(loc, 'results', 'xyz-result-1.jbdmp'), 'wb') as fh: fh.write(b'\x80garbage')
@@ -160,6 +181,13 @@ def run_real(c, ctx):
                 try: crop.grow_missing(verbosity=0); g = None
                 except Exception as e: g = {'err': 'fail', 'exc': type(e).__name__}
                 obs.append({'o': g, 'ls': crops.ls(loc)})
+            if _surplus(c):
+                try: bad = sorted(int(x) for x in crop.check_bad()); g = {'bad': bad}
+                except Exception as e: g = {'err': 'fail', 'exc': type(e).__name__}
+                obs.append({'o': g, 'ls': crops.ls(loc)})
+                try: crop.grow_missing(verbosity=0); g = None
+                except Exception as e: g = {'err': 'fail', 'exc': type(e).__name__}
+                obs.append({'o': g, 'ls': crops.ls(loc)})
             if c['stage'] == 'label': runner.var_names = ['x']
             if c['stage'] == 'conflict': opts['overwrite'] = True      # the documented way to resolve a conflict
             if c['stage'] == 'saveerr': os.makedirs(sub)
@@ -175,7 +203,7 @@ def run_real(c, ctx):
 
 
 def model_request(c, obs):
-    h = {'sweep': _sweep(c['n']), 'kind': {'scalar': 'num'}, 'ops': _ops(c)}
+    h = {'sweep': _sweep(5, 6) if _surplus(c) else _sweep(c['n']), 'kind': {'scalar': 'num'}, 'ops': _ops(c)}
     return crops.history_request(h)
 
 
@@ -198,14 +226,15 @@ def oracle(c, obs):
     a1, a2 = att[0], att[-1]
     before = o[o.index(a1) - 1]['ls']
     resolved = c['clean_up'] if c['clean_up'] is not None else (not c['allow_incomplete'])
-    sw = _sweep(c['n']); sz = sweeps.sizes(sw)
-    want = [canon(fns.render({'scalar': 'num'}, fns.code_of_ranks([i], sz))) for i in range(c['n'])]
+    sw = _sweep(5, 6) if _surplus(c) else _sweep(c['n']); sz = sweeps.sizes(sw)
+    nn = 5 if _surplus(c) else c['n']
+    want = [canon(fns.render({'scalar': 'num'}, fns.code_of_ranks([i], sz))) for i in range(nn)]
 
     def value_ok(val):
         if 'raw' in val: return val['raw'] == want
-        if 'ds' in val: return val['ds']['vars']['x']['data'] == want and val['ds']['coords']['a'] == sw['values']['a']
+        if 'ds' in val: return val['ds']['vars']['x']['data'] == want and val['ds']['coords']['a'] == sw['values']['a'][:nn]
         rows = sorted(val['df'], key=lambda r: r['a'])
-        return [r['x'] for r in rows] == want and [r['a'] for r in rows] == sw['values']['a']
+        return [r['x'] for r in rows] == want and [r['a'] for r in rows] == sw['values']['a'][:nn]
     expect_fail = _expect_fail(c)
     if expect_fail:
         if a1['o']['res'] == 'ok': return f'the reap succeeded although {c["stage"]} was injected'
